@@ -827,9 +827,12 @@ bool varintBP128IsSorted64(const uint64_t *values, size_t count) {
 }
 
 size_t varintBP128GetCount(const uint8_t *src, size_t srcBytes) {
-    (void)srcBytes;
     uint64_t count;
-    varintTaggedGet64(src, &count);
+    /* Never read past the declared size; a truncated header holds no count */
+    if (varintTaggedGet(src, srcBytes > 9 ? 9 : (int32_t)srcBytes, &count) ==
+        0) {
+        return 0;
+    }
     return (size_t)count;
 }
 
